@@ -373,7 +373,35 @@ pub fn drive(args: &HashMap<String, String>) {
             hists.push(json!({"c0": c0, "m0": true, "events": [["begin", 1, job_json(j)], ["end", 1, j.key]], "main_thread": true, "source": "generated"}));
         }
     }
+    // 4. include files are part of the input: the same include name found in different directories (different search
+    //    paths, or a directory searched sooner) by consecutive compilations of one thread
+    let mut inc_srcs: Vec<JobSrc> = vec![];
+    {
+        let mk = |dir: &str, k: i64| {
+            let d = format!("{scratch}/{dir}");
+            std::fs::create_dir_all(&d).unwrap();
+            std::fs::write(format!("{d}/kval.clib"), format!("(\n  (defconstant KVAL {k})\n)")).unwrap();
+            d
+        };
+        let (da, db) = (mk("incA", 77), mk("incB", 1000));
+        for (sig, tag) in [("", "classic"), ("(include *standard-cl-21*)", "cl21"), ("(include *standard-cl-23*)", "cl23")] {
+            let text = format!("(mod (X) {sig} (include kval.clib) (+ X KVAL))");
+            for (name, search) in [("A", vec![da.clone()]), ("B", vec![db.clone()]), ("BA", vec![db.clone(), da.clone()]), ("AB", vec![da.clone(), db.clone()])] {
+                inc_srcs.push(JobSrc { key: format!("inc{name}:{tag}"), text: text.clone(), file: format!("{scratch}/main.clsp"), search });
+            }
+        }
+        for a in 0..inc_srcs.len() {
+            for b in 0..inc_srcs.len() {
+                if a != b && a / 4 == b / 4 {
+                    let (x, y) = (&inc_srcs[a], &inc_srcs[b]);
+                    hists.push(json!({"c0": 8, "m0": true, "events": [["begin", 1, job_json(x)], ["end", 1, x.key], ["begin", 1, job_json(y)], ["end", 1, y.key]],
+                        "main_thread": (a + b) % 2 == 0, "source": "include-pair"}));
+                }
+            }
+        }
+    }
     all_jobs.extend(gen_srcs.iter());
+    all_jobs.extend(inc_srcs.iter());
     // every job also once alone with the default process state (the reference observation)
     for j in &all_jobs {
         hists.push(json!({"c0": 0, "m0": true, "events": [["begin", 1, job_json(j)], ["end", 1, j.key]], "main_thread": true, "source": "alone"}));
